@@ -115,13 +115,13 @@ impl World {
         };
         let c = &self.client;
         match q.kind {
-            0 => out(c.exchange_code(AuthorizationCode::new("co de".into())).add_extra_param("k", "v&w").request(&http)),
-            1 => out(c.exchange_refresh_token(&self.rt).add_scope(Scope::new("a".into())).request(&http)),
-            2 => out(c.exchange_password(&self.user, &self.pass).add_scope(Scope::new("a".into())).add_scope(Scope::new("b".into())).request(&http)),
-            3 => out(c.exchange_client_credentials().request(&http)),
-            4 => out::<StandardDeviceAuthorizationResponse, _>(c.exchange_device_code().add_scope(Scope::new("d".into())).request(&http)),
-            6 => out(c.introspect(&self.at).set_token_type_hint("access_token").request(&http)),
-            _ => out(c.revoke_token(StandardRevocableToken::AccessToken(self.at.clone())).unwrap().request(&http)),
+            0 => out(c.exchange_code(AuthorizationCode::new("co de".into())).add_extra_param("k", "v&w").add_extra_param("a", "1").request(&http)),
+            1 => out(c.exchange_refresh_token(&self.rt).add_scope(Scope::new("z".into())).add_scope(Scope::new("a".into())).add_extra_param("e2", "2").add_extra_param("e1", "1").request(&http)),
+            2 => out(c.exchange_password(&self.user, &self.pass).add_scope(Scope::new("z".into())).add_scope(Scope::new("b".into())).add_extra_param("e2", "2").add_extra_param("e1", "1").request(&http)),
+            3 => out(c.exchange_client_credentials().add_scope(Scope::new("z".into())).add_scope(Scope::new("a".into())).add_extra_param("e2", "2").add_extra_param("e1", "1").request(&http)),
+            4 => out::<StandardDeviceAuthorizationResponse, _>(c.exchange_device_code().add_scope(Scope::new("z".into())).add_scope(Scope::new("d".into())).add_extra_param("e2", "2").add_extra_param("e1", "1").request(&http)),
+            6 => out(c.introspect(&self.at).set_token_type_hint("access_token").add_extra_param("e2", "2").add_extra_param("e1", "1").request(&http)),
+            _ => out(c.revoke_token(StandardRevocableToken::AccessToken(self.at.clone())).unwrap().add_extra_param("e2", "2").add_extra_param("e1", "1").request(&http)),
         }
     }
 
@@ -136,15 +136,15 @@ impl World {
         }));
         let c = &self.client;
         match q.kind {
-            0 => Box::pin(async move { out(c.exchange_code(AuthorizationCode::new("co de".into())).add_extra_param("k", "v&w").request_async(http).await) }),
-            1 => Box::pin(async move { out(c.exchange_refresh_token(&self.rt).add_scope(Scope::new("a".into())).request_async(http).await) }),
+            0 => Box::pin(async move { out(c.exchange_code(AuthorizationCode::new("co de".into())).add_extra_param("k", "v&w").add_extra_param("a", "1").request_async(http).await) }),
+            1 => Box::pin(async move { out(c.exchange_refresh_token(&self.rt).add_scope(Scope::new("z".into())).add_scope(Scope::new("a".into())).add_extra_param("e2", "2").add_extra_param("e1", "1").request_async(http).await) }),
             2 => Box::pin(async move {
-                out(c.exchange_password(&self.user, &self.pass).add_scope(Scope::new("a".into())).add_scope(Scope::new("b".into())).request_async(http).await)
+                out(c.exchange_password(&self.user, &self.pass).add_scope(Scope::new("z".into())).add_scope(Scope::new("b".into())).add_extra_param("e2", "2").add_extra_param("e1", "1").request_async(http).await)
             }),
-            3 => Box::pin(async move { out(c.exchange_client_credentials().request_async(http).await) }),
-            4 => Box::pin(async move { out::<StandardDeviceAuthorizationResponse, _>(c.exchange_device_code().add_scope(Scope::new("d".into())).request_async(http).await) }),
-            6 => Box::pin(async move { out(c.introspect(&self.at).set_token_type_hint("access_token").request_async(http).await) }),
-            _ => Box::pin(async move { out(c.revoke_token(StandardRevocableToken::AccessToken(self.at.clone())).unwrap().request_async(http).await) }),
+            3 => Box::pin(async move { out(c.exchange_client_credentials().add_scope(Scope::new("z".into())).add_scope(Scope::new("a".into())).add_extra_param("e2", "2").add_extra_param("e1", "1").request_async(http).await) }),
+            4 => Box::pin(async move { out::<StandardDeviceAuthorizationResponse, _>(c.exchange_device_code().add_scope(Scope::new("z".into())).add_scope(Scope::new("d".into())).add_extra_param("e2", "2").add_extra_param("e1", "1").request_async(http).await) }),
+            6 => Box::pin(async move { out(c.introspect(&self.at).set_token_type_hint("access_token").add_extra_param("e2", "2").add_extra_param("e1", "1").request_async(http).await) }),
+            _ => Box::pin(async move { out(c.revoke_token(StandardRevocableToken::AccessToken(self.at.clone())).unwrap().add_extra_param("e2", "2").add_extra_param("e1", "1").request_async(http).await) }),
         }
     }
 }
